@@ -583,6 +583,28 @@ func (sc *scenario) finalOracles() {
 	if nerr > ninj {
 		sc.find("error-event-duplicated", "%d EventError delivered for %d injected read errors", nerr, ninj)
 	}
+	// a delivered event belongs to the application: the object is not handed out a second time and what it says does not change
+	// afterwards ("delivered exactly once", "a complete Event whose When() …")
+	seenPtr := map[tcell.Event]int{}
+	for j, d := range sc.got {
+		if d.ev == nil || !d.whenOK {
+			continue
+		}
+		if k, dup := seenPtr[d.ev]; dup && d.typ != "EventInterrupt" {
+			sc.find("when-shared-object:"+d.typ, "delivered events #%d and #%d (%s, %s) are one and the same %s object", k, j, sc.got[k].desc, d.desc, d.typ)
+		} else {
+			seenPtr[d.ev] = j
+		}
+		func() {
+			defer func() { _ = recover() }()
+			if w := d.ev.When(); !w.Equal(d.when) {
+				sc.find("when-changed:"+d.typ, "When() of delivered %s (%s) was %v at its delivery and is %v later at the end of the case", d.typ, d.desc, d.when.Sub(sc.t0), w.Sub(d.when))
+			}
+			if nd, _ := describe(d.ev); nd != d.desc {
+				sc.find("when-changed:"+d.typ, "delivered %s read %s at its delivery and reads %s at the end of the case", d.typ, d.desc, nd)
+			}
+		}()
+	}
 	// When(): between the arrival of the cause and the delivery
 	for j, d := range sc.got {
 		if !d.whenOK {
